@@ -205,7 +205,7 @@ var subC08Seq = core.NewSub("C08/rejected-then-valid", func(w *core.Worker, c se
 func init() { register("C08", "exploration", runC08) }
 
 func runC08(ctx *core.Ctx) {
-	ctx.Rule("SetCanonicalBytes: complete one-byte deviation balls (32x256) and two-byte balls ({00,b-1,b,b+1,ff} at all position pairs) around l-1, l, l+1, 0, 2^252, 2^256-1 and l with single bytes zeroed; SetUniformBytes: one-byte balls (64x256) around 8 structured 64-byte bases; SetBytesWithClamping: bytes 0 and 31 jointly over all 65536 values x fillings, one-byte balls; all lengths 0..130 for all three. distinct_nontrivial = distinct decoded scalar values")
+	ctx.Rule("SetCanonicalBytes: complete one-byte deviation balls (32x256) and two-byte balls ({00,b-1,b,b+1,ff} at all position pairs) around l-1, l, l+1, 0, 2^252, 2^256-1 and l with single bytes zeroed; SetUniformBytes: one-byte balls (64x256) around 8 structured 64-byte bases; SetBytesWithClamping: bytes 0 and 31 jointly over all 65536 values x fillings, one-byte balls; all lengths 0..130 for all three; thorough tier: complete two-byte balls (all position pairs x 65536 values) around l-1 (canonical, clamping) and ff^64 (wide). distinct_nontrivial = distinct decoded scalar values")
 	ctx.Assume("math/big is correct", "inputs outside the enumerated balls are not decided")
 	l := ref.L
 	le := func(v *big.Int) []byte { b := ref.LE32(v); return b[:] }
@@ -283,6 +283,30 @@ func runC08(ctx *core.Ctx) {
 	}
 	add("SetBytesWithClamping", lengthCases(32))
 	subC08.RunList(ctx, cases)
+	if !ctx.Quick() {
+		// thorough: COMPLETE two-byte balls (every position pair x all 65536
+		// value pairs): around l-1 for the canonical decision (496 pairs), around
+		// the all-ff wide string (2016 pairs) and around l-1 for clamping
+		full2 := func(fn string, base []byte) {
+			n := len(base)
+			var pairs [][2]int
+			for i := 0; i < n; i++ {
+				for j := i + 1; j < n; j++ {
+					pairs = append(pairs, [2]int{i, j})
+				}
+			}
+			subC08.Run(ctx, len(pairs)*65536, func(k int) bytesCase {
+				p := pairs[k/65536]
+				b := append([]byte{}, base...)
+				b[p[0]], b[p[1]] = byte(k), byte(k>>8)
+				return bytesCase{fn, Hex(b)}
+			})
+		}
+		full2("SetCanonicalBytes", canonBases[0])
+		full2("SetUniformBytes", bytes.Repeat([]byte{0xff}, 64))
+		full2("SetBytesWithClamping", canonBases[0])
+		ctx.Extra("complete_two_byte_balls", []string{"SetCanonicalBytes around l-1", "SetUniformBytes around ff^64", "SetBytesWithClamping around l-1"})
+	}
 	var sq []seqBytesCase
 	g := le(alpha.GenericScalar)
 	for _, fn := range []string{"SetCanonicalBytes", "SetUniformBytes", "SetBytesWithClamping"} {
